@@ -20,10 +20,11 @@ Proofs of the lemmas: `Proofs/StoreRead.lean`.
 -/
 import OpenFGAVerif.Model.StoreRead
 import OpenFGAVerif.Proofs.StoreRead
+import OpenFGAVerif.Proofs.UserStr
 import OpenFGAVerif.Gen.StoreRead
 
 namespace OpenFGAVerif.C13
-open OpenFGAVerif.Model.StoreTypes OpenFGAVerif.Model.StoreRead OpenFGAVerif.Proofs.StoreRead
+open OpenFGAVerif.Model.StoreTypes OpenFGAVerif.Model.StoreRead OpenFGAVerif.Proofs.StoreRead OpenFGAVerif.Proofs.UserStr
 
 /-! ## The shape of today's source -/
 
@@ -358,6 +359,54 @@ theorem backends_agree_rut (s : List TupleRec) (f : UsersetFilter) (hs : ColsOK 
     (hp : Gen.StoreRead.rutPlainMatchesWildcard = false ∨ ∀ x ∈ f.restrictions, x.kind ≠ .plain) :
     memReadUsersetTuples genMemShape s f = sqlReadUsersetTuples s f := by
   rw [mem_rut_current s f hc hb hp, sql_rut s f hs ho]
+
+/-! ## The column-consistency hypotheses discharged for well-shaped user strings -/
+
+/-- every stored user string is `type:id` or `type:id#rel` with separator-free parts (incl. `type:*`) -/
+def WellShaped (s : List TupleRec) : Prop := ∀ t ∈ s, Nonempty (UserShape t.user)
+
+/-- sqlite.ReadUsersetTuples = documented filter, for every store of well-shaped users and every filter whose object is
+`""`, `type:` or `type:id` — no `ColsOK` assumption left (`Proofs/UserStr.lean`). -/
+theorem sql_rut_shapes (s : List TupleRec) (f : UsersetFilter) (hs : WellShaped s) (ho : ObjFilterWF f.object) :
+    sqlReadUsersetTuples s f = specReadUsersetTuples s f := sql_rut_eq_spec s f (colsOK_of_shapes s hs) ho
+
+/-- **memory = sqlite for ReadUsersetTuples**, today's source, all well-shaped stores, all filters the callers can pass -/
+theorem backends_agree_rut_shapes (s : List TupleRec) (f : UsersetFilter) (hs : WellShaped s) (ho : ObjFilterWF f.object)
+    (hp : Gen.StoreRead.rutPlainMatchesWildcard = false ∨ NoPlainRef f) :
+    memReadUsersetTuples genMemShape s f = sqlReadUsersetTuples s f :=
+  backends_agree_rut_full s f (colsOK_of_shapes s hs) ho hp
+
+/-- sqlite.read = documented filter for well-shaped stores and filters, up to F4e -/
+theorem sql_read_shapes (s : List TupleRec) (f : ReadFilter) (hs : WellShaped s) (ho : ObjFilterWF f.object)
+    (hu : f.user = "" ∨ ∃ sh : UserShape f.user, (sh.id = [] → sh.rel = []))
+    (hE : Gen.StoreRead.sqlReadUserNoRelPinsEmpty = true ∨ (toUserParts f.user).rel ≠ "" ∨ (toUserParts f.user).id = "" ∨
+        ∀ t ∈ s, (toUserParts t.user).typ = (toUserParts f.user).typ → (toUserParts t.user).id = (toUserParts f.user).id →
+          (toUserParts t.user).rel = "") :
+    sqlRead genSqlShape s f = specRead s f :=
+  sql_read_eq_spec genSqlShape s f (colsOK_of_shapes s hs) (prefOK_of_shapes s hs _) ho
+    (hu.imp id (fun ⟨sh, h⟩ => userFilterWF_of_shape _ sh h)) hE
+
+/-- sqlite.ReadStartingWithUser for well-shaped stores (filter entries: `TargetWF`, provable by `targetWF_of_parts`) -/
+theorem sql_rswu_shapes (s : List TupleRec) (f : RswuFilter) (hs : WellShaped s)
+    (hu : ∀ u ∈ f.userFilter, TargetWF u)
+    (hE : Gen.StoreRead.sqlRswuUserNoRelPinsEmpty = true ∨ ∀ u ∈ f.userFilter, u.relation ≠ "" ∨
+        ∀ t ∈ s, (toUserParts t.user).typ = (splitObject u.object).1 → (toUserParts t.user).id = (splitObject u.object).2 →
+          (toUserParts t.user).rel = "")
+    (he : Gen.StoreRead.sqlRswuEmptyIdsMeansAll = false ∨ f.objectIDs ≠ some []) :
+    (sqlReadStartingWithUser genSqlShape s f).Perm (specReadStartingWithUser s f) ∧
+      SortedById (sqlReadStartingWithUser genSqlShape s f) :=
+  sql_rswu_partial genSqlShape s f (colsOK_of_shapes s hs) hu hE he
+
+example : WellShaped wStore := by
+  intro t ht
+  simp only [wStore, List.mem_cons, List.not_mem_nil, or_false] at ht
+  rcases ht with rfl | rfl | rfl | rfl | rfl | rfl
+  · exact ⟨shapeOf _ "group" "eng" "member"⟩
+  · exact ⟨shapeOf _ "group" "fga" "member"⟩
+  · exact ⟨shapeOf _ "group" "*" ""⟩
+  · exact ⟨shapeOf _ "group" "eng" ""⟩
+  · exact ⟨shapeOf _ "user" "jon" ""⟩
+  · exact ⟨shapeOf _ "user" "jon" ""⟩
 
 /-! ## Conditions and contexts round-trip -/
 
